@@ -136,4 +136,67 @@ theorem reject_addr_width_mismatch (d : Desc) (h : distinctCount (d.protocols.ma
     ∃ e, Model.gen d = .error e :=
   error_of_not_ok d fun hok => h (validate_ok d hok).2.2.2.2.2
 
+/-- **source and destination counts that differ without multi-connection are an error** -/
+theorem matchLists_count_mismatch (srcs dsts : List String) (h : srcs.length ≠ dsts.length) :
+    ∃ e, matchLists false srcs dsts = .error e := by
+  unfold matchLists
+  have c1 : (srcs.length == dsts.length) = false := by simpa using h
+  simp only [c1, Bool.false_and, Bool.false_eq_true, if_false]
+  exact ⟨_, rfl⟩
+
+/-- **with multi-connection, counts that do not divide evenly are an error** -/
+theorem matchLists_not_dividing (srcs dsts : List String) (h : srcs.length ≠ dsts.length)
+    (h1 : srcs.length % dsts.length ≠ 0 ∨ dsts.length = 0) (h2 : dsts.length % srcs.length ≠ 0 ∨ srcs.length = 0) :
+    ∃ e, matchLists true srcs dsts = .error e := by
+  unfold matchLists
+  have c1 : (srcs.length == dsts.length) = false := by simpa using h
+  have c2 : (true && dsts.length != 0 && srcs.length % dsts.length == 0 && decide (srcs.length > dsts.length)) = false := by
+    rcases h1 with h1 | h1
+    · have : (srcs.length % dsts.length == 0) = false := by simpa using h1
+      simp [this]
+    · simp [h1]
+  have c3 : (true && srcs.length != 0 && dsts.length % srcs.length == 0 && decide (dsts.length > srcs.length)) = false := by
+    rcases h2 with h2 | h2
+    · have : (dsts.length % srcs.length == 0) = false := by simpa using h2
+      simp [this]
+    · simp [h2]
+  simp only [c1, c2, c3, Bool.false_eq_true, if_false]
+  exact ⟨_, rfl⟩
+
+/-- when the pairing succeeds both sides have the same length: no link is dropped or invented -/
+theorem matchLists_ok_lengths (multi : Bool) (srcs dsts a b : List String)
+    (h : matchLists multi srcs dsts = .ok (a, b)) : a.length = b.length ∧ a.length = max srcs.length dsts.length := by
+  unfold matchLists at h
+  by_cases c1 : (srcs.length == dsts.length) = true
+  · simp only [c1, if_true, pure, Except.pure] at h
+    cases h
+    have : srcs.length = dsts.length := by simpa using c1
+    exact ⟨this, by omega⟩
+  simp only [c1, Bool.false_eq_true, if_false] at h
+  by_cases c2 : (multi && dsts.length != 0 && srcs.length % dsts.length == 0 && decide (srcs.length > dsts.length)) = true
+  · simp only [c2, if_true, pure, Except.pure] at h
+    cases h
+    simp only [Bool.and_eq_true, bne_iff_ne, ne_eq, beq_iff_eq, decide_eq_true_eq] at c2
+    obtain ⟨⟨⟨_, hnd⟩, hmod⟩, hgt⟩ := c2
+    have hlen : (dsts.flatMap fun t => List.replicate (srcs.length / dsts.length) t).length = srcs.length := by
+      simp only [List.length_flatMap, List.length_replicate, List.map_const', List.sum_replicate_nat]
+      have := Nat.div_add_mod srcs.length dsts.length
+      rw [hmod, Nat.add_zero] at this
+      exact this
+    exact ⟨hlen.symm, by omega⟩
+  simp only [c2, Bool.false_eq_true, if_false] at h
+  by_cases c3 : (multi && srcs.length != 0 && dsts.length % srcs.length == 0 && decide (dsts.length > srcs.length)) = true
+  · simp only [c3, if_true, pure, Except.pure] at h
+    cases h
+    simp only [Bool.and_eq_true, bne_iff_ne, ne_eq, beq_iff_eq, decide_eq_true_eq] at c3
+    obtain ⟨⟨⟨_, hns⟩, hmod⟩, hgt⟩ := c3
+    have hlen : (srcs.flatMap fun t => List.replicate (dsts.length / srcs.length) t).length = dsts.length := by
+      simp only [List.length_flatMap, List.length_replicate, List.map_const', List.sum_replicate_nat]
+      have := Nat.div_add_mod dsts.length srcs.length
+      rw [hmod, Nat.add_zero] at this
+      exact this
+    exact ⟨hlen, by omega⟩
+  simp only [c3, Bool.false_eq_true, if_false] at h
+  cases h
+
 end FlooVerif.C10
